@@ -12,7 +12,9 @@
 (*     from related headers, calls interleaved; module-level state is world state.   *)
 (*  C. (InitH / NextH) the call-history machine: every call sequence up to MaxHist  *)
 (*     over HistCalls on one object (implementation-shaped object state: lazy       *)
-(*     inverse, root-finder scratch) - each result must equal the fresh object's.   *)
+(*     inverse, root-finder scratch) - each result must equal the fresh object's;   *)
+(*     Life(op): copy / deepcopy / pickle steps x where the angles were given.      *)
+(*  A2. (ChooseAng) projection angles as cards / constructor keywords: AngRefines.  *)
 EXTENDS Wcs, Json
 
 CONSTANTS Projs,        \* subset of {"TAN", "TPV", "TANPV", "SIP"}
